@@ -210,6 +210,13 @@ def op_run(op, cfg, state, seed, keyname):
                 if not view[key]:
                     return ("rejected", "already empty")
                 view[key][0] = ("mask", True)
+            elif how == "value_heap":
+                import heapq
+
+                heapq.heappush(view[key], ("append", 4))
+                heapq.heapify(view[key])
+            elif how == "value_reinit":
+                view[key].__init__([("mask", True)])
             elif how == "setitem":
                 view[key] = 1
             elif how == "delitem":
@@ -224,6 +231,10 @@ def op_run(op, cfg, state, seed, keyname):
                 view.pop(key)
         except (TypeError, AttributeError) as e:
             return ("rejected", type(e).__name__)
+        if how.startswith("value_") and how != "value_bytes":
+            # a value handed out by a mapping may be the caller's own copy: what counts is that the configuration is unchanged,
+            # which the frame monitor judges right after this operation
+            return ("rejected", "no effect on the configuration required")
         return ("ACCEPTED", how)
     raise ValueError(op)
 
@@ -330,7 +341,7 @@ def gen_ops(rng, has_rsa, n):
         elif r < 0.9 and has_rsa:
             ops.append(("session", rng.choice(["fixed", "fixed", "varying"])))
         else:
-            ops.append(("mutate", rng.choice(VIEWS), rng.choice(["setitem", "delitem", "update", "clear", "setdefault", "pop", "value_iadd", "value_append", "value_reverse", "value_clear", "value_setitem", "value_bytes"])))
+            ops.append(("mutate", rng.choice(VIEWS), rng.choice(["setitem", "delitem", "update", "clear", "setdefault", "pop", "value_iadd", "value_append", "value_reverse", "value_clear", "value_setitem", "value_bytes", "value_heap", "value_reinit"])))
     return ops
 
 
